@@ -1,0 +1,21 @@
+//go:build verif
+
+// Contracts of package glob for the deductive verification in /verif (comment-only).
+//
+// Ghost maps (declared in /verif/contracts/external.contracts): is_glob[r] holds for matchers that were compiled
+// from a glob pattern by this package, glob_of[r] is that pattern.
+
+package glob
+
+//@ func MustCompile
+//@ assigns nothing
+//@ defines is_glob[result]: true
+//@ defines glob_of[result]: pattern
+//@ ensures {C17} result != nil && fresh(result)
+
+//@ func Compile
+//@ assigns nothing
+//@ defines is_glob[result0]: err == nil
+//@ defines glob_of[result0]: pattern
+//@ ensures {C17} err == nil ==> result0 != nil && fresh(result0)
+//@ ensures {C17} err != nil ==> result0 == nil
